@@ -32,6 +32,7 @@ APPLICABLE = {
     "filter": ("wrong_dtype_bare", "wrong_dtype_chunk", "rows_outside", "wrong_data_type"),
     "merge2": ("wrong_dtype_bare", "wrong_dtype_chunk", "rows_outside", "wrong_data_type"),
     "multi": ("wrong_dtype_bare", "wrong_dtype_chunk", "rows_outside", "wrong_data_type", "non_dict"),
+    "multi2": ("wrong_dtype_bare", "wrong_dtype_chunk", "rows_outside", "wrong_data_type", "non_dict"),
     "overlap": ("wrong_dtype_bare", "rows_outside"),
     "downchunk": ("wrong_dtype_chunk", "rows_outside", "wrong_data_type", "gap", "overlap"),
     "exhaust": ("wrong_dtype_bare", "wrong_dtype_chunk", "rows_outside", "wrong_data_type"),
@@ -41,7 +42,7 @@ APPLICABLE = {
 def gen(seed, tier):
     r = rng_for(seed, "workload")
     for attempt in range(20):
-        w = c01.gen(seed + attempt * 7919, tier, kinds=("rowmap", "filter", "merge2", "multi", "overlap",
+        w = c01.gen(seed + attempt * 7919, tier, kinds=("rowmap", "filter", "merge2", "multi", "multi2", "overlap",
                                                          "downchunk", "exhaust", "loop"))
         spec, target = w["spec"], w["target"]
         nb = P.node_by_type(spec)
@@ -60,7 +61,7 @@ def gen(seed, tier):
         d = r.choice(sorted(cands))
         n = nb[d]
         kinds = list(APPLICABLE[n["kind"]])
-        if d != target and not (n["kind"] == "multi" and target in n["names"]):
+        if d != target and not (n["kind"] in ("multi", "multi2") and target in n["names"]):
             kinds = [k for k in kinds if k not in ("gap", "overlap")]   # continuity is promised for targets
         if not kinds:
             continue
@@ -68,9 +69,15 @@ def gen(seed, tier):
         if "overlap" in kinds and r.random() < 0.25:
             kind = r.choice(["overlap", "gap"])      # only targets qualify, so they would be rare otherwise
         fault = {"node": P.names_of(n)[0], "kind": kind}
+        if kind == "wrong_dtype_bare" and r.random() < 0.3:
+            fault["variant"] = "empty"
+        elif kind == "wrong_dtype_chunk" and r.random() < 0.4:
+            fault["variant"] = "consistent"
+        elif kind == "wrong_data_type" and n["kind"] in ("multi", "multi2") and r.random() < 0.5:
+            fault["variant"] = "sibling"
         if kind == "rows_outside":
             fault["row"] = r.choice(["first", "middle", "last"])
-        if n["kind"] == "multi":
+        if n["kind"] in ("multi", "multi2"):
             fault["output"] = target if target in n["names"] else r.choice(n["names"])
         if n["kind"] == "source":
             nchunks = len(n["bounds"]) - 1
@@ -189,6 +196,7 @@ def execute(w, seed, strategy="random", forced=None, strict=False):
                     break
     r = base_result(pr, w, vio, inconclusive, strategy=strategy,
                     extra_probes={"fault_hit": int(hit), f"byz_{f['kind'] if f else 'none'}": 1,
+                                  f"byz_variant_{(f or {}).get('variant', 'plain')}": 1,
                                   "single_thread_runs": int(w["cfg"]["processor"] == "single_thread")})
     if f:
         r["faults"] = {f"byzantine_{f['kind']}": int(hit)}
